@@ -14,6 +14,14 @@
 //! `u8::is_ascii_whitespace` (and "blank") classify them differently.  They
 //! do occur in the middle and at the end of names and arguments.  No line
 //! contains LF.
+//!
+//! Next to random bytes the arguments come from pools of realistic
+//! pkgsrc-style texts (one pool per command kind) and from a dictionary of
+//! special prefixes / suffixes (`PREFIXES`, `SUFFIXES`): none of them starts
+//! with '@', a blank or a disputed byte, so what the line must parse to is
+//! still known by construction.  The long-line generators (`stress_piece`,
+//! `aligned_document`, `large_document`, `huge_document`) only vary lengths,
+//! blank runs and positions.
 
 use crate::rng::Rng;
 use pkgsrc::plist::{PlistEntry, PlistOption};
@@ -149,7 +157,7 @@ pub const CMDS: &[Cmd] = &[
 
 /// Argument classes of every command except `@option`.
 pub const ARG_CLASSES: &[&str] =
-    &["absent", "empty", "blank", "ascii", "utf8", "latin1", "tricky", "raw"];
+    &["absent", "empty", "blank", "ascii", "utf8", "latin1", "tricky", "raw", "special", "long"];
 /// Argument classes of `@option`.
 pub const OPT_CLASSES: &[&str] = &[
     "absent",
@@ -195,6 +203,11 @@ pub const UNKNOWN: &[&[u8]] = &[
     b"@IGNORE",
     b"@cwd\t",
     b"@mode=0644",
+    b"@\xef\xbb\xbfname",
+    b"@name\xef\xbb\xbf",
+    b"@./cwd",
+    b"@mtree",
+    b"@link",
 ];
 pub const UNKNOWN_NAMES: &[&str] = &[
     "@bogus",
@@ -219,6 +232,11 @@ pub const UNKNOWN_NAMES: &[&str] = &[
     "@IGNORE",
     "@cwd<TAB>",
     "@mode=0644",
+    "@<BOM>name",
+    "@name<BOM>",
+    "@./cwd",
+    "@mtree",
+    "@link",
 ];
 pub const UNKNOWN_ARGS: &[&str] = &["absent", "empty", "ascii"];
 
@@ -236,8 +254,13 @@ pub const FILE_CLASSES: &[&str] = &[
     "utf8",
     "raw",
     "at-inside",
+    "special",
     "long",
+    "lead-long",
 ];
+/// The last `LONG_FILE_CLASSES` entries of `FILE_CLASSES` give names of
+/// hundreds of bytes (C15 keeps its samples readable without them).
+pub const LONG_FILE_CLASSES: usize = 2;
 
 fn os(b: &[u8]) -> OsString {
     OsString::from_vec(b.to_vec())
@@ -332,6 +355,12 @@ pub const DANGER: &[u8] = &[
 const UTF8_BITS: &[&str] = &["\u{e9}", "\u{20ac}", "\u{1f496}", "\u{65e5}\u{672c}", "\u{f8}", "\u{df}"];
 const LATIN1_BITS: &[u8] = &[0xE9, 0xF8, 0xFF, 0xFC, 0xC3, 0x80];
 
+// Pools of realistic pkgsrc-style arguments, one per command kind, used next
+// to the random bytes.  They deliberately hold the spellings on which an
+// over-helpful implementation would act (directory removals, no-op commands,
+// RCS ids, metadata files, backup files, non-canonical directories ...): the
+// parser must keep, and the views must hand out, every entry of their kind
+// whatever the argument says.
 const PATHS: &[&str] = &[
     "bin/foo",
     "lib/libfoo.so.1.2",
@@ -344,21 +373,169 @@ const PATHS: &[&str] = &[
     "share/examples/foo/foo.conf",
     "+BUILD_INFO",
     "libexec/foo-1.0/helper",
+    "+CONTENTS",
+    "+DESC",
+    "+COMMENT",
+    "+INSTALL",
+    "+DEINSTALL",
+    "+DISPLAY",
+    "+REQUIRED_BY",
+    "+SIZE_PKG",
+    "info/dir",
+    "info/foo.info",
+    "info/foo.info-1",
+    "man/man1/foo.1.gz",
+    "man/cat1/foo.0",
+    "share/foo/bar.orig",
+    "share/foo/bar.rej",
+    "etc/foo.conf~",
+    "bin/foo~",
+    "share/foo/x.bak",
+    "share/foo/#x#",
+    "share/foo/.#x",
+    "lib/libfoo.la",
+    "lib/libfoo.a",
+    "lib/foo/core",
+    "share/foo/foo.core",
+    "share/doc/foo/.hidden",
+    "share/foo/CVS/Entries",
+    "share/foo/.git/config",
+    "lib/python3.11/site-packages/foo/__pycache__/x.cpython-311.pyc",
+    ".",
+    "..",
+    "./bin/foo",
+    "bin//foo",
+    "bin/./foo",
+    "bin/../bin/foo",
+    "bin/foo/",
+    "/etc/foo.conf",
+    "/usr/pkg/bin/foo",
+    "share/foo/a b",
+    "${PLIST.nls}share/locale/de/LC_MESSAGES/foo.mo",
+    "${PKGMANDIR}/man1/foo.1",
+    "%D/bin/x",
+    "bin/[",
+    "include/c++/v1/x",
+    "share/foo/ignore",
+    "ignore",
+    "comment",
+    "preserve",
+    "dir",
+    "rmdir",
+    "true",
 ];
-const DIRS: &[&str] =
-    &["/usr/pkg", "/opt/pkg", "/", "/usr/pkg/", "/var/db/pkg", "opt", "/a/b/", ".", "//", "/tmp"];
-const NAMES: &[&str] = &[
+const DIRS: &[&str] = &[
+    "/usr/pkg",
+    "/opt/pkg",
+    "/",
+    "/usr/pkg/",
+    "/var/db/pkg",
+    "opt",
+    "/a/b/",
+    ".",
+    "//",
+    "/tmp",
+    "/usr/pkg//share",
+    "/usr/pkg/./x",
+    "/usr/pkg/x/.",
+    "/usr/pkg/./",
+    "/usr//pkg/",
+    "///",
+    "/.",
+    "/./",
+    "./",
+    "./x",
+    "..",
+    "/usr/pkg/..",
+    "/usr/pkg/../pkg",
+    "/usr/pkg/share/../lib",
+    "usr/pkg",
+    "/usr/X11R7",
+    "/usr/pkg/emul/linux",
+    "~",
+    "${PREFIX}",
+    "%D",
+    "/usr/pkg ",
+    "/usr/pkg\\",
+    "C:\\pkg",
+];
+/// Directories for @pkgdir / @dirrm (relative to the prefix as a rule, but
+/// absolute and non-canonical ones occur).
+const SUBDIRS: &[&str] = &[
+    "share/foo",
+    "share/foo/",
+    "share/foo/bar",
+    "/var/db/foo",
+    "/usr/pkg/share/foo",
+    "/",
+    ".",
+    "etc",
+    "lib/foo-1.0",
+    "share//foo",
+    "./share/foo",
+    "share/foo/.",
+    "share/foo/..",
+    "%D/share/foo",
+    "${PREFIX}/share/foo",
+    "share/foo bar",
+    "info",
+    "man/man1",
+    "/var/run/foo",
+    "/tmp",
+];
+const PKGNAMES: &[&str] = &[
     "pkgtest-1.0",
     "foo-1.2nb3",
+    "p5-Foo-Bar-0.01",
+    "x",
+    "foo",
+    "foo-",
+    "-1.0",
+    "foo-bar",
+    "foo-1.0-2",
+    "foo-1.0nb0",
+    "FOO-1.0",
+    "foo-[0-9]*",
+    "foo-1.0 ",
+    "foo-1.0 bar-2.0",
+];
+const DEPS: &[&str] = &[
     "dep-pkg1-[0-9]*",
     "dep-pkg2>=2.0",
     "cfl-pkg1<2.0",
-    "p5-Foo-Bar-0.01",
-    "x",
     "{a,b}-[0-9]*",
     "foo>=1.0<2.0",
+    "perl>=5.0",
+    "foo-1.0",
+    "foo-1.0{,nb*}",
+    "foo",
+    "foo-*",
+    "*",
+    "x",
+    "../../lang/perl5",
+    "foo-[0-9]*:../../devel/foo",
+    ">=1.0",
+    "foo>=",
+    "foo-1.0 bar-2.0",
+    "pkgtest-1.0",
+    "{foo,bar",
+    "foo<1.0>2.0",
 ];
+const MODES: &[&str] = &[
+    "0644", "4755", "755", "0755", "0444", "2755", "01777", "u+rwx", "a+x", "go-w", "u=rwx,go=rx", "0",
+    "644", "0000", "7777", "-", "rw-r--r--", "0644 ",
+];
+const OWNERS: &[&str] = &[
+    "root", "bin", "nobody", "daemon", "0", "games", "www", "_foo", "uucp", "root:wheel", "${ROOT_USER}",
+    "${REAL_ROOT_USER}", "65534", "Root",
+];
+const GROUPS: &[&str] = &[
+    "wheel", "bin", "nogroup", "staff", "0", "games", "kmem", "tty", "operator", "${ROOT_GROUP}", "nobody",
+    "Wheel",
+];
+const DISPLAYS: &[&str] = &["MESSAGE", "+DISPLAY", "share/doc/foo/MESSAGE", "/dev/null", "hi", "MESSAGE.NetBSD"];
 const WORDS: &[&str] = &["0644", "root", "wheel", "u+rwx", "bin", "755", "nobody", "MESSAGE", "hi"];
+/// @exec / @unexec command texts.
 const SHELL: &[&str] = &[
     "echo \"I just installed F=%F D=%D B=%B f=%f\"",
     "rm -f %D/share/foo",
@@ -366,6 +543,157 @@ const SHELL: &[&str] = &[
     "true",
     "install-info --delete %D/info/dir",
     "$NetBSD$",
+    "rmdir %D/share/foo 2>/dev/null || true",
+    "rmdir %D/share/foo",
+    "/bin/rmdir -p %D/x",
+    "/usr/bin/rmdir %D/share/foo/bar",
+    "rmdir -p %D/share/foo/bar 2>/dev/null || ${TRUE}",
+    "${RMDIR} %D/share/foo",
+    "rmdir /var/x",
+    "rmdir",
+    "echo rmdir %D/x",
+    "test -d %D/x && rmdir %D/x",
+    "${MKDIR} %D/y",
+    "mkdir -p %D/share/foo",
+    "/bin/mkdir -p %D/var/foo",
+    "install-info --delete %D/info/f.info %D/info/dir",
+    "install-info %D/info/f.info %D/info/dir",
+    "install-info --info-dir=%D/info %D/info/f.info",
+    "%D/bin/x",
+    "%D/sbin/update-foo --remove",
+    "${RM} -f %D/x",
+    "rm -rf %D/var/cache/foo",
+    "/bin/rm -f %D/%F.bak",
+    "/bin/sh -c \"cd %D && rm -f x\"",
+    "if [ -f %D/x ]; then rm %D/x; fi",
+    "ldconfig",
+    "/sbin/ldconfig -m %D/lib",
+    "update-desktop-database",
+    "gtk-update-icon-cache -f -t %D/share/icons/hicolor",
+    "%D/bin/mktexlsr",
+    "chmod 755 %D/bin/x",
+    "chown root:wheel %F",
+    "ln -sf %D/bin/a %D/bin/b",
+    "unlink %D/bin/b",
+    "pkg_delete foo",
+    ":",
+    "false",
+    "exit 0",
+    "# nothing",
+    "@unexec rmdir %D/x",
+    "@exec true",
+    "${TRUE}",
+    "/usr/bin/true",
+    "echo",
+];
+const COMMENTS: &[&str] = &[
+    "$NetBSD$",
+    "$NetBSD: PLIST,v 1.12 2023/04/01 10:00:00 wiz Exp $",
+    "$Id$",
+    "DEPENDS",
+    "ignore",
+    "preserve",
+    "MD5:d41d8cd98f00b204e9800998ecf8427e",
+    "Symlink:../lib/x",
+    "bin/foo",
+    "in-tree-file",
+    "@ignore",
+    "@name x",
+    "This is a comment",
+    "DEPOT",
+    "PKG_FORMAT_REVISION:1.1",
+    "#",
+    "TODO: remove",
+    "end of list",
+];
+
+/// Byte strings that tools, editors and shells treat specially in front of
+/// a name: none begins with '@', a blank or a byte of disputed white-space
+/// status, so a line that starts with one of them is a file entry and an
+/// argument that starts with one keeps it.
+pub const PREFIXES: &[&[u8]] = &[
+    b"\xef\xbb\xbf",
+    b"\xef\xbb\xbf\xef\xbb\xbf",
+    b"\xff\xfe",
+    b"\xfe\xff",
+    b"\xef\xbb",
+    b"./",
+    b"/",
+    b"//",
+    b"../",
+    b"#",
+    b"# ",
+    b"#!",
+    b"\\",
+    b"\\@",
+    b"\"",
+    b"'",
+    b"`",
+    b"-",
+    b"--",
+    b"+",
+    b"!",
+    b"%",
+    b"%D/",
+    b"%%",
+    b"$",
+    b"${PREFIX}/",
+    b"${PLIST.x}",
+    b"~",
+    b"~/",
+    b"\x00",
+    b"\x1b[0m",
+    b"\x7f",
+    b"\xc3\xa9",
+    b"\xe2\x80\x8b",
+    b"\xc2\xad",
+    b"=",
+    b":",
+    b";",
+    b"*",
+    b"?",
+    b"<",
+    b">",
+    b"|",
+    b"&",
+    b"(",
+    b"[",
+    b"{",
+    b"a@",
+    b".",
+    b"..",
+    b",",
+    b"0",
+];
+/// What follows a special prefix at the start of a line: texts that would
+/// be a command (or an error) if the prefix were stepped over, and plain
+/// names.
+const AFTER_PREFIX: &[&[u8]] = &[
+    b"@name x",
+    b"@name x-1.0",
+    b"@comment $NetBSD$",
+    b"@comment",
+    b"@ignore",
+    b"@",
+    b"@cwd /usr/pkg",
+    b"@bogus",
+    b"@exec true",
+    b"@unexec rmdir %D/x",
+    b"@option preserve",
+    b"@pkgdep foo>=1",
+    b"@dirrm share/foo",
+    b"@mode",
+    b"bin/foo",
+    b"x",
+    b"",
+    b" ",
+    b" @name x",
+    b"\t@ignore",
+];
+/// Ends of names and arguments that invite trimming, joining or unquoting.
+const SUFFIXES: &[&[u8]] = &[
+    b"\\", b" \\", b"/", b"/.", b"//", b"\r", b" \r", b";", b" &&", b"\"", b"'", b"\x00", b"\xef\xbb\xbf", b"~",
+    b".gz", b".orig", b"#", b" #", b" # x", b",", b"=", b"@", b" @", b"$",
 ];
 
 fn pickb(r: &mut Rng, xs: &[&'static [u8]]) -> &'static [u8] {
@@ -380,9 +708,34 @@ fn blanks(r: &mut Rng, lo: usize, hi: usize) -> Vec<u8> {
 fn ascii_for(r: &mut Rng, kind: Kind) -> Vec<u8> {
     let pool: &[&str] = match kind {
         Kind::File => PATHS,
-        Kind::Cwd | Kind::PkgDir | Kind::DirRm => DIRS,
-        Kind::Name | Kind::PkgDep | Kind::BldDep | Kind::PkgCfl => NAMES,
-        Kind::Exec | Kind::UnExec | Kind::Comment => SHELL,
+        Kind::Cwd => DIRS,
+        Kind::PkgDir | Kind::DirRm => {
+            if r.chance(3, 4) {
+                SUBDIRS
+            } else {
+                DIRS
+            }
+        }
+        Kind::Name => PKGNAMES,
+        Kind::PkgDep | Kind::BldDep | Kind::PkgCfl => {
+            if r.chance(4, 5) {
+                DEPS
+            } else {
+                PKGNAMES
+            }
+        }
+        Kind::Exec | Kind::UnExec => SHELL,
+        Kind::Comment => {
+            if r.chance(3, 4) {
+                COMMENTS
+            } else {
+                SHELL
+            }
+        }
+        Kind::Mode => MODES,
+        Kind::Owner => OWNERS,
+        Kind::Group => GROUPS,
+        Kind::Display => DISPLAYS,
         _ => WORDS,
     };
     if r.chance(1, 6) {
@@ -467,13 +820,138 @@ fn sanitize(v: &mut Vec<u8>) {
     }
 }
 
+/// `n` blanks: all spaces, all tabs, or a mixture.
+pub fn blank_run(r: &mut Rng, n: usize) -> Vec<u8> {
+    match r.below(4) {
+        0 => vec![b' '; n],
+        1 => vec![b'\t'; n],
+        _ => (0..n).map(|_| if r.chance(2, 3) { b' ' } else { b'\t' }).collect(),
+    }
+}
+
+/// Number of leading blanks for the long-line workloads: every length
+/// 0-200 is equally likely, with the block sizes and their neighbours on top.
+pub fn lead_len(r: &mut Rng) -> usize {
+    if r.chance(1, 5) {
+        *r.pick(&[0usize, 1, 7, 8, 15, 16, 17, 31, 32, 33, 63, 64, 65, 127, 128, 129, 199, 200])
+    } else {
+        r.range(0, 200)
+    }
+}
+
+/// `n` >= 1 bytes of name / argument text without LF whose first byte is
+/// neither a blank, '@' nor of disputed white-space status.  `utf8` keeps
+/// the text valid UTF-8.
+pub fn long_text(r: &mut Rng, n: usize, utf8: bool) -> Vec<u8> {
+    let mut v: Vec<u8> = Vec::with_capacity(n + 4);
+    match r.below(if utf8 { 3 } else { 5 }) {
+        0 => {
+            // path-like
+            while v.len() < n {
+                v.extend_from_slice(r.pick(PATHS).as_bytes());
+                v.push(b'/');
+            }
+        }
+        1 => {
+            // one repeated printable byte, a blank run somewhere inside
+            let c = *r.pick(b"axZ0_-./");
+            v.resize(n, c);
+            if n >= 8 && r.chance(1, 2) {
+                let len = r.range(1, n / 2);
+                let at = r.range(1, n - len);
+                let run = blank_run(r, len);
+                v[at..at + len].copy_from_slice(&run);
+            }
+        }
+        2 => {
+            // words separated by blanks, trailing blanks now and then
+            while v.len() < n {
+                v.extend_from_slice(r.pick(SHELL).as_bytes());
+                v.extend(blanks(r, 1, 3));
+            }
+        }
+        _ => {
+            v = (0..n).map(|_| if r.chance(1, 10) { *r.pick(DANGER) } else { r.byte() }).collect();
+        }
+    }
+    v.truncate(n);
+    sanitize(&mut v);
+    if v[0] == b'@' {
+        v[0] = b'a';
+    }
+    v
+}
+
+fn special(r: &mut Rng, base: Vec<u8>) -> Vec<u8> {
+    let bom: &[u8] = b"\xef\xbb\xbf";
+    let mut v: Vec<u8> = vec![];
+    match r.below(8) {
+        0 | 1 | 2 => {
+            // special prefix, sometimes in front of something command-like
+            v.extend_from_slice(pickb(r, PREFIXES));
+            if r.chance(1, 3) {
+                v.extend_from_slice(pickb(r, AFTER_PREFIX));
+            } else {
+                v.extend(base);
+            }
+        }
+        3 => {
+            // begins with '@' (an argument may)
+            v.extend_from_slice(pickb(r, &[&b"@"[..], b"@name x", b"@@", b"@ignore", b"@comment ", b"@cwd /"]));
+            if r.chance(1, 2) {
+                v.extend(base);
+            }
+        }
+        4 => {
+            v.extend(base);
+            v.extend_from_slice(pickb(r, SUFFIXES));
+        }
+        5 => {
+            // byte order mark in front, inside or at the end
+            let at = match r.below(3) {
+                0 => 0,
+                1 => r.below(base.len() + 1),
+                _ => base.len(),
+            };
+            v.extend_from_slice(&base[..at]);
+            v.extend_from_slice(bom);
+            v.extend_from_slice(&base[at..]);
+        }
+        6 => {
+            v.extend_from_slice(pickb(r, PREFIXES));
+            v.extend(base);
+            v.extend_from_slice(pickb(r, SUFFIXES));
+        }
+        _ => {
+            // a prefix or suffix token as the whole text
+            if r.chance(1, 2) {
+                v.extend_from_slice(pickb(r, PREFIXES));
+            } else {
+                v.extend_from_slice(pickb(r, SUFFIXES));
+            }
+        }
+    }
+    v
+}
+
 fn payload(r: &mut Rng, class: &str, kind: Kind) -> Vec<u8> {
+    if class == "long" {
+        let n = if r.chance(1, 10) { r.range(1000, 5000) } else { r.range(60, 1000) };
+        let strict = matches!(
+            kind,
+            Kind::Name | Kind::PkgDep | Kind::BldDep | Kind::PkgCfl | Kind::Mode | Kind::Owner | Kind::Group
+        );
+        // commands that need UTF-8 mostly get it (the error path has its own classes)
+        let utf8 = strict && r.chance(7, 8);
+        return long_text(r, n, utf8);
+    }
     let base = ascii_for(r, kind);
     let mut v = match class {
         "ascii" => base,
         "utf8" => with_utf8(r, base),
         "latin1" => with_latin1(r, base),
         "tricky" => tricky(r, base),
+        "special" => special(r, base),
         _ => raw(r),
     };
     sanitize(&mut v);
@@ -554,7 +1032,14 @@ pub fn command_line(r: &mut Rng, ci: usize, ai: usize) -> Line {
         }
         other => {
             let a = payload(r, other, cmd.kind);
-            bytes.extend(separator(r));
+            if other == "long" {
+                // the separating space, then blanks of every length 0-200
+                bytes.push(b' ');
+                let n = lead_len(r);
+                bytes.extend(blank_run(r, n));
+            } else {
+                bytes.extend(separator(r));
+            }
             bytes.extend_from_slice(&a);
             arg = Some(a);
         }
@@ -672,13 +1157,47 @@ pub fn file_line(r: &mut Rng, fi: usize) -> Line {
             b.extend_from_slice(pickb(r, &[&b"@"[..], b" @name x", b"@cwd /", b"/@", b" @"]));
             b
         }
+        "special" => {
+            // a special prefix (byte order mark, "./", "#", ...) and then
+            // usually something that would be a command without it
+            let mut b = pickb(r, PREFIXES).to_vec();
+            match r.below(4) {
+                0 | 1 => b.extend_from_slice(pickb(r, AFTER_PREFIX)),
+                2 => b.extend(ascii_for(r, Kind::File)),
+                _ => {
+                    b.extend(ascii_for(r, Kind::File));
+                    b.extend_from_slice(pickb(r, SUFFIXES));
+                }
+            }
+            b
+        }
+        "lead-long" => {
+            // blanks of every length 0-200, then 60-1000 bytes (sometimes a
+            // single byte, sometimes a command text: with blanks in front it
+            // is a file)
+            let n = lead_len(r);
+            let mut b = blank_run(r, n);
+            match r.below(8) {
+                0 => b.push(single_char(r)),
+                1 if n > 0 => {
+                    b.extend_from_slice(b"@comment ");
+                    let k = r.range(60, 1000);
+                    b.extend(long_text(r, k, false));
+                }
+                _ => {
+                    let k = if r.chance(1, 10) { r.range(1000, 5000) } else { r.range(60, 1000) };
+                    b.extend(long_text(r, k, false));
+                }
+            }
+            b
+        }
         _ => {
             // long: a few hundred to a few thousand bytes
             let n = if r.chance(1, 8) { r.range(1000, 5000) } else { r.range(64, 400) };
             (0..n).map(|_| if r.chance(1, 10) { *r.pick(DANGER) } else { r.byte() }).collect()
         }
     };
-    let lead = matches!(class, "lead-blank" | "lead-blank-at");
+    let lead = matches!(class, "lead-blank" | "lead-blank-at") || (class == "lead-long" && is_blank(v[0]));
     if !lead {
         sanitize(&mut v);
         if v[0] == b'@' {
@@ -907,6 +1426,20 @@ pub fn duplicate_item(r: &mut Rng, lay: &Layout) -> Option<Layout> {
 /// Swap two items for which `differ(i, j)` holds.
 pub fn swap_items(r: &mut Rng, lay: &Layout, differ: &dyn Fn(usize, usize) -> bool) -> Option<Layout> {
     let pos = item_positions(lay);
+    if pos.len() > 64 {
+        // large documents: sample instead of enumerating all pairs
+        for _ in 0..64 {
+            let (a, b) = (r.below(pos.len()), r.below(pos.len()));
+            if let (Phys::Item(i), Phys::Item(j)) = (&lay.phys[pos[a]], &lay.phys[pos[b]]) {
+                if a != b && differ(*i, *j) {
+                    let mut l = lay.clone();
+                    l.phys.swap(pos[a], pos[b]);
+                    return Some(l);
+                }
+            }
+        }
+        return None;
+    }
     let mut pairs = vec![];
     for a in 0..pos.len() {
         for b in a + 1..pos.len() {
@@ -927,6 +1460,340 @@ pub fn swap_items(r: &mut Rng, lay: &Layout, differ: &dyn Fn(usize, usize) -> bo
 }
 
 // ---------------------------------------------------------------------------
+// Long lines, block alignment, large documents (C14)
+// ---------------------------------------------------------------------------
+
+/// Block sizes a scanner may work in.
+pub const ALIGNS: &[usize] = &[16, 32, 64, 128, 256, 512, 1024, 4096, 8192, 65536];
+
+pub enum Piece {
+    Blank(Vec<u8>),
+    Item(Line),
+}
+
+impl Piece {
+    pub fn len(&self) -> usize {
+        match self {
+            Piece::Blank(b) => b.len(),
+            Piece::Item(l) => l.bytes.len(),
+        }
+    }
+}
+
+fn pick_align(r: &mut Rng, cap: usize) -> usize {
+    let a = match r.below(60) {
+        0..=11 => 16,
+        12..=23 => 32,
+        24..=39 => 64,
+        40..=44 => 128,
+        45..=49 => 256,
+        50..=52 => 512,
+        53..=55 => 1024,
+        56 | 57 => 4096,
+        58 => 8192,
+        _ => 65536,
+    };
+    if a + 8 > cap {
+        64
+    } else {
+        a
+    }
+}
+
+/// A length (>= 1, <= cap) for a line that starts at offset `cur` of the
+/// document: anything from 1 to 400, a multiple of the block size `a` and
+/// its neighbours, a length that makes the line END at a block boundary, or
+/// one of the classic buffer sizes and its neighbours.
+pub fn stress_len(r: &mut Rng, a: usize, cur: usize, cap: usize) -> usize {
+    let d = r.range(0, 4) as isize - 2;
+    let n = match r.below(6) {
+        0 | 1 => r.range(1, 400) as isize,
+        2 => (r.range(1, 3) * a) as isize + d,
+        3 => {
+            // `cur + n` (the position of the line's newline) lands on or
+            // next to a multiple of `a`
+            let to_boundary = a - (cur % a);
+            (to_boundary + r.below(3) * a) as isize + d
+        }
+        4 => {
+            *r.pick(&[63isize, 64, 65, 127, 128, 129, 191, 192, 193, 255, 256, 257, 511, 512, 513, 1023, 1024, 1025]) + 0
+        }
+        _ => *r.pick(&[2047isize, 2048, 2049, 4095, 4096, 4097, 8191, 8192, 8193, 65535, 65536, 65537]),
+    };
+    (n.max(1) as usize).min(cap.max(1))
+}
+
+fn file_of(v: Vec<u8>, class: &'static str) -> Line {
+    let want = match entry(Kind::File, Some(&v)) {
+        Some(e) => Want::Entry(e),
+        None => Want::Err(ErrKind::Any),
+    };
+    Line { bytes: v, want, cmd: "file", arg: class }
+}
+
+/// One physical line of `total` bytes (approximately, for commands) built
+/// to stress a block-wise scanner; `total` >= 1.
+pub fn stress_piece(r: &mut Rng, total: usize) -> Piece {
+    match r.below(10) {
+        // a blank-only line: no entry
+        0 | 1 | 2 => Piece::Blank(blank_run(r, total)),
+        // blanks, then a name
+        3 | 4 => {
+            let lead = match r.below(4) {
+                0 => total - 1, // a single byte at the very end
+                1 => 0,
+                _ => lead_len(r).min(total - 1),
+            };
+            let mut v = blank_run(r, lead);
+            v.extend(long_text(r, total - lead, false));
+            Piece::Item(file_of(v, "stress-name"))
+        }
+        // one non-blank byte somewhere in a run of blanks
+        5 => {
+            let mut v = blank_run(r, total);
+            let at = r.below(total);
+            v[at] = single_char(r);
+            if at == 0 && v[0] == b'@' {
+                v[0] = b'a';
+            }
+            Piece::Item(file_of(v, "stress-one-byte"))
+        }
+        // a command, blanks of every length 0-200 before its argument
+        6 | 7 => {
+            let word = *r.pick(&["@comment", "@exec", "@unexec", "@cwd", "@name", "@display", "@pkgdir", "@pkgdep", "@dirrm"]);
+            let cmd = CMDS.iter().find(|c| c.word == word).unwrap_or(&CMDS[0]);
+            let room = total.saturating_sub(word.len() + 1);
+            let sep = lead_len(r).min(room.saturating_sub(1));
+            let n = (room - sep).max(1);
+            let arg = long_text(r, n, true);
+            let mut v = word.as_bytes().to_vec();
+            v.push(b' ');
+            v.extend(blank_run(r, sep));
+            v.extend_from_slice(&arg);
+            Piece::Item(Line { bytes: v, want: want_for(cmd, Some(&arg)), cmd: cmd.word, arg: "stress-long" })
+        }
+        // a command whose argument is blanks only: absent
+        8 => {
+            let word = *r.pick(&["@comment", "@mode", "@owner", "@group", "@ignore"]);
+            let cmd = CMDS.iter().find(|c| c.word == word).unwrap_or(&CMDS[0]);
+            let mut v = word.as_bytes().to_vec();
+            v.push(b' ');
+            v.extend(blank_run(r, total.saturating_sub(word.len() + 1)));
+            Piece::Item(Line { bytes: v, want: want_for(cmd, None), cmd: cmd.word, arg: "stress-blank-arg" })
+        }
+        // blanks, then a command text: a file
+        _ => {
+            let text: &[u8] = pickb(r, &[&b"@comment x"[..], b"@ignore", b"@name x-1.0", b"@", b"@bogus", b"@cwd /"]);
+            let lead = total.saturating_sub(text.len()).max(1);
+            let mut v = blank_run(r, lead);
+            v.extend_from_slice(text);
+            Piece::Item(file_of(v, "stress-lead-at"))
+        }
+    }
+}
+
+/// Accumulates physical lines and knows the offset at which the next one
+/// starts.
+struct DocBuilder {
+    lines: Vec<Line>,
+    phys: Vec<Phys>,
+    cur: usize,
+}
+
+impl DocBuilder {
+    fn push(&mut self, p: Piece) {
+        self.cur += p.len() + 1;
+        match p {
+            Piece::Blank(b) => self.phys.push(Phys::Blank(b)),
+            Piece::Item(l) => {
+                self.phys.push(Phys::Item(self.lines.len()));
+                self.lines.push(l);
+            }
+        }
+    }
+
+    /// Physical lines that occupy exactly the bytes `cur..target`.
+    fn fill_to(&mut self, r: &mut Rng, target: usize) {
+        // a few ordinary lines first, when there is room
+        while target - self.cur > 40 && r.chance(1, 3) {
+            let l = valid_line(r);
+            if self.cur + l.bytes.len() + 1 + 1 > target {
+                break;
+            }
+            self.push(Piece::Item(l));
+        }
+        while self.cur < target {
+            let n = target - self.cur - 1; // bytes of the line in front of its newline
+            if n == 0 {
+                self.push(Piece::Blank(vec![]));
+            } else if n >= 4 && r.chance(1, 4) {
+                // two lines instead of one
+                let k = r.range(1, n - 2);
+                let p = Self::filler(r, k);
+                self.push(p);
+            } else {
+                let p = Self::filler(r, n);
+                self.push(p);
+            }
+        }
+    }
+
+    /// A line of exactly `n` >= 1 bytes.
+    fn filler(r: &mut Rng, n: usize) -> Piece {
+        match r.below(4) {
+            0 => Piece::Blank(blank_run(r, n)),
+            1 if n >= 10 => {
+                let arg = long_text(r, n - 9, false);
+                let mut v = b"@comment ".to_vec();
+                v.extend_from_slice(&arg);
+                let cmd = CMDS.iter().find(|c| c.word == "@comment").unwrap_or(&CMDS[0]);
+                Piece::Item(Line { bytes: v, want: want_for(cmd, Some(&arg)), cmd: "@comment", arg: "filler" })
+            }
+            _ => Piece::Item(file_of(long_text(r, n, false), "filler")),
+        }
+    }
+}
+
+/// A document in which 1-3 stress lines start at (or one or two bytes next
+/// to) a multiple of a block size, counted from the start of the document.
+/// Returns the lines, the layout and the block sizes used.
+pub fn aligned_document(r: &mut Rng, cap: usize) -> (Vec<Line>, Layout, Vec<usize>) {
+    let mut b = DocBuilder { lines: vec![], phys: vec![], cur: 0 };
+    let mut used = vec![];
+    for _ in 0..r.range(1, 3) {
+        let a = pick_align(r, cap);
+        let delta = *r.pick(&[-2isize, -1, 0, 0, 0, 0, 1, 2]);
+        let mut m = (b.cur + a - 1) / a;
+        if r.chance(1, 3) && a <= 1024 {
+            m += r.range(0, 2);
+        }
+        let mut target = (m * a) as isize + delta;
+        while target < b.cur as isize {
+            target += a as isize;
+        }
+        b.fill_to(r, target as usize);
+        let total = stress_len(r, a, b.cur, cap);
+        let p = stress_piece(r, total);
+        b.push(p);
+        used.push(a);
+    }
+    if r.chance(1, 2) {
+        for _ in 0..r.range(1, 2) {
+            if r.chance(1, 3) {
+                let b2 = blank_line(r);
+                b.push(Piece::Blank(b2));
+            } else {
+                let l = valid_line(r);
+                b.push(Piece::Item(l));
+            }
+        }
+    }
+    let DocBuilder { lines, phys, .. } = b;
+    (lines, Layout { phys, final_nl: r.chance(1, 2) }, used)
+}
+
+/// A document of `n` entry lines (ordinary and stress lines) with blank
+/// lines, some of them long, sprinkled in.
+pub fn large_document(r: &mut Rng, n: usize, cap: usize) -> (Vec<Line>, Layout) {
+    let mut b = DocBuilder { lines: vec![], phys: vec![], cur: 0 };
+    let density = r.below(4);
+    while b.lines.len() < n {
+        if r.chance(density, 12) {
+            let bl = if r.chance(1, 4) {
+                let k = stress_len(r, 64, b.cur, cap.min(5000));
+                blank_run(r, k)
+            } else {
+                blank_line(r)
+            };
+            b.push(Piece::Blank(bl));
+        }
+        if r.chance(1, 10) {
+            let k = stress_len(r, 64, b.cur, cap.min(5000));
+            let p = stress_piece(r, k);
+            b.push(p);
+        } else {
+            let l = if r.chance(1, 6) { file_line(r, 0) } else { valid_line(r) };
+            b.push(Piece::Item(l));
+        }
+    }
+    let DocBuilder { lines, phys, .. } = b;
+    (lines, Layout { phys, final_nl: r.chance(1, 2) })
+}
+
+/// A document of at least `target` bytes: very many ordinary lines, a few
+/// very long lines, or a mixture.
+pub fn huge_document(r: &mut Rng, target: usize) -> (Vec<Line>, Layout) {
+    let mut b = DocBuilder { lines: vec![], phys: vec![], cur: 0 };
+    let mode = r.below(3);
+    while b.cur < target {
+        let long = match mode {
+            0 => false,
+            1 => true,
+            _ => r.chance(1, 50),
+        };
+        if long {
+            let k = r.range(16_000, 200_000).min(target);
+            let p = stress_piece(r, k);
+            b.push(p);
+        } else if r.chance(1, 20) {
+            let bl = blank_line(r);
+            b.push(Piece::Blank(bl));
+        } else {
+            let l = valid_line(r);
+            b.push(Piece::Item(l));
+        }
+    }
+    let DocBuilder { lines, phys, .. } = b;
+    (lines, Layout { phys, final_nl: r.chance(1, 2) })
+}
+
+/// A copy of a line (`PlistEntry` is not `Clone`).
+pub fn dup_line(l: &Line) -> Line {
+    use PlistEntry as E;
+    #[allow(unreachable_patterns)]
+    let want = match &l.want {
+        Want::Err(k) => Want::Err(*k),
+        Want::Entry(e) => Want::Entry(match e {
+            E::File(a) => E::File(a.clone()),
+            E::Cwd(a) => E::Cwd(a.clone()),
+            E::Exec(a) => E::Exec(a.clone()),
+            E::UnExec(a) => E::UnExec(a.clone()),
+            E::Mode(a) => E::Mode(a.clone()),
+            E::PkgOpt(PlistOption::Preserve) => E::PkgOpt(PlistOption::Preserve),
+            E::Owner(a) => E::Owner(a.clone()),
+            E::Group(a) => E::Group(a.clone()),
+            E::Comment(a) => E::Comment(a.clone()),
+            E::Ignore => E::Ignore,
+            E::Name(a) => E::Name(a.clone()),
+            E::PkgDir(a) => E::PkgDir(a.clone()),
+            E::DirRm(a) => E::DirRm(a.clone()),
+            E::Display(a) => E::Display(a.clone()),
+            E::PkgDep(a) => E::PkgDep(a.clone()),
+            E::BldDep(a) => E::BldDep(a.clone()),
+            E::PkgCfl(a) => E::PkgCfl(a.clone()),
+            _ => return Line { bytes: l.bytes.clone(), want: Want::Err(ErrKind::Any), cmd: l.cmd, arg: l.arg },
+        }),
+    };
+    Line { bytes: l.bytes.clone(), want, cmd: l.cmd, arg: l.arg }
+}
+
+/// Repeat 1-3 lines of the sequence verbatim, directly after the original
+/// or anywhere later (the same file, directory, dependency, @cwd or @mode
+/// listed twice: every view keeps both).
+pub fn with_duplicates(r: &mut Rng, mut v: Vec<Line>) -> Vec<Line> {
+    if v.is_empty() {
+        return v;
+    }
+    for _ in 0..r.range(1, 3) {
+        let k = r.below(v.len());
+        let at = if r.chance(1, 2) { k + 1 } else { r.range(k + 1, v.len()) };
+        let d = dup_line(&v[k]);
+        v.insert(at, d);
+    }
+    v
+}
+
+// ---------------------------------------------------------------------------
 // C15: entry sequences that stress the ignore flag and the prefix
 // ---------------------------------------------------------------------------
 
@@ -944,13 +1811,19 @@ pub const SCENARIOS: &[&str] = &[
     "several-name-display",
     "preserve",
     "random-mix",
+    "realistic",
+    "long",
 ];
 
 fn cwd_line(r: &mut Rng, style: usize) -> Line {
     let word = *r.pick(&["@cwd", "@src", "@cd"]);
     let arg: Vec<u8> = match style % 5 {
-        0 => pickb(r, &[&b"/usr/pkg"[..], b"/opt/pkg", b"opt", b"/a/b", b"."]).to_vec(),
-        1 => pickb(r, &[&b"/usr/pkg/"[..], b"/", b"//", b"/a/b/", b"x/"]).to_vec(),
+        0 => pickb(
+            r,
+            &[&b"/usr/pkg"[..], b"/opt/pkg", b"opt", b"/a/b", b".", b"/usr/pkg//share", b"/usr/pkg/./x", b"/usr/pkg/x/.", b"/usr/pkg/.."],
+        )
+        .to_vec(),
+        1 => pickb(r, &[&b"/usr/pkg/"[..], b"/", b"//", b"/a/b/", b"x/", b"/usr//pkg/", b"/usr/pkg/./", b"///", b"./"]).to_vec(),
         2 => pickb(r, &[&b"/opt/\xe9"[..], b"/\xf8/x", b"/opt/p\xc3", b"\xff", b"/a\xc2"]).to_vec(),
         3 => pickb(r, &[&b"/opt/\xe9/"[..], b"/\xf8/", b"\xff/", b"/p\xc3/"]).to_vec(),
         _ => {
@@ -976,7 +1849,7 @@ fn file(r: &mut Rng) -> Line {
     if r.chance(2, 3) {
         file_line(r, 3) // plain ASCII path: keeps samples readable
     } else {
-        let fi = r.below(FILE_CLASSES.len() - 1); // every class but "long"
+        let fi = r.below(FILE_CLASSES.len() - LONG_FILE_CLASSES); // every class but the long ones
         file_line(r, fi)
     }
 }
@@ -998,6 +1871,127 @@ fn random_element(r: &mut Rng) -> Line {
             valid_of_kind(r, k)
         }
     }
+}
+
+/// The line `word [arg]` with exactly the given argument.
+pub fn cmd_line(r: &mut Rng, word: &'static str, arg: Option<&[u8]>) -> Line {
+    let cmd = CMDS.iter().find(|c| c.word == word).unwrap_or(&CMDS[0]);
+    let mut bytes = cmd.word.as_bytes().to_vec();
+    if let Some(a) = arg {
+        bytes.extend(separator(r));
+        bytes.extend_from_slice(a);
+    }
+    let want = want_for(cmd, arg);
+    Line { bytes, want, cmd: cmd.word, arg: "pool" }
+}
+
+fn pool_line(r: &mut Rng, word: &'static str, pool: &[&str]) -> Line {
+    let a = r.pick(pool).as_bytes();
+    cmd_line(r, word, Some(a))
+}
+
+fn pool_file(r: &mut Rng) -> Line {
+    let v = r.pick(PATHS).as_bytes().to_vec();
+    let want = match entry(Kind::File, Some(&v)) {
+        Some(e) => Want::Entry(e),
+        None => Want::Err(ErrKind::Any),
+    };
+    Line { bytes: v, want, cmd: "file", arg: "pool" }
+}
+
+/// A packing list as pkg_create / the pkgsrc plist framework writes it,
+/// every argument taken from the realistic pools: header (RCS id, @name,
+/// dependencies, conflicts, @display, @option), @cwd, then groups of files
+/// with @mode/@owner/@group set and reset, @ignore'd metadata files,
+/// @exec/@unexec pairs, @pkgdir, @cwd changes, and the directory removals
+/// (@unexec rmdir ..., @dirrm) at the end.
+fn realistic(r: &mut Rng) -> Vec<Line> {
+    let mut v: Vec<Line> = vec![];
+    if r.chance(3, 4) {
+        v.push(pool_line(r, "@comment", COMMENTS));
+    }
+    if r.chance(4, 5) {
+        v.push(pool_line(r, "@name", PKGNAMES));
+    }
+    for _ in 0..r.below(3) {
+        v.push(pool_line(r, "@blddep", DEPS));
+        v.push(pool_line(r, "@pkgdep", DEPS));
+    }
+    for _ in 0..r.below(3) {
+        v.push(pool_line(r, "@pkgcfl", DEPS));
+    }
+    if r.chance(1, 3) {
+        v.push(pool_line(r, "@display", DISPLAYS));
+    }
+    if r.chance(1, 4) {
+        v.push(cmd_line(r, "@option", Some(b"preserve")));
+    }
+    if r.chance(5, 6) {
+        let w = *r.pick(&["@cwd", "@cwd", "@src", "@cd"]);
+        v.push(pool_line(r, w, DIRS));
+    }
+    for _ in 0..r.range(1, 4) {
+        let perms = r.chance(1, 2);
+        if perms {
+            if r.chance(2, 3) {
+                v.push(pool_line(r, "@mode", MODES));
+            }
+            if r.chance(1, 2) {
+                v.push(pool_line(r, "@owner", OWNERS));
+            }
+            if r.chance(1, 2) {
+                v.push(pool_line(r, "@group", GROUPS));
+            }
+        }
+        for _ in 0..r.range(1, 5) {
+            match r.below(10) {
+                0 | 1 => {
+                    v.push(cmd_line(r, "@ignore", None));
+                    if r.chance(1, 4) {
+                        v.push(pool_line(r, "@comment", COMMENTS));
+                    }
+                    v.push(pool_file(r));
+                }
+                2 => {
+                    v.push(pool_file(r));
+                    v.push(pool_line(r, "@exec", SHELL));
+                    v.push(pool_line(r, "@unexec", SHELL));
+                }
+                3 => {
+                    v.push(pool_line(r, "@unexec", SHELL));
+                    v.push(pool_file(r));
+                }
+                4 => {
+                    v.push(pool_line(r, "@pkgdir", SUBDIRS));
+                    v.push(pool_file(r));
+                }
+                5 => v.push(pool_line(r, "@comment", COMMENTS)),
+                _ => v.push(pool_file(r)),
+            }
+        }
+        if perms {
+            // back to the defaults
+            for w in ["@mode", "@owner", "@group"] {
+                if r.chance(1, 2) {
+                    v.push(cmd_line(r, w, None));
+                }
+            }
+        }
+        if r.chance(1, 3) {
+            v.push(pool_line(r, "@cwd", DIRS));
+        }
+    }
+    for _ in 0..r.below(4) {
+        match r.below(3) {
+            0 => v.push(pool_line(r, "@unexec", SHELL)),
+            1 => v.push(pool_line(r, "@dirrm", SUBDIRS)),
+            _ => v.push(pool_line(r, "@exec", SHELL)),
+        }
+    }
+    if r.chance(1, 8) {
+        v.push(cmd_line(r, "@ignore", None));
+    }
+    v
 }
 
 /// An entry sequence of length 0-30 for scenario `SCENARIOS[sc]`; `rot`
@@ -1132,6 +2126,14 @@ pub fn sequence(r: &mut Rng, sc: usize, rot: usize) -> Vec<Line> {
                     core.push(random_element(r));
                 }
             }
+        }
+        "realistic" => return realistic(r),
+        "long" => {
+            let n = if r.chance(1, 8) { r.range(100, 400) } else { r.range(31, 80) };
+            for _ in 0..n {
+                core.push(random_element(r));
+            }
+            with_filler = false;
         }
         _ => {
             for _ in 0..r.range(3, 30) {
